@@ -134,7 +134,11 @@ def ob_check_reldir(w, P):
     w.clock_fn = lambda: 1000.0
     cl = []
     old_cwd = None
-    if w.is_real:
+    spelling = P.get('spelling', 'relative')
+    if spelling != 'relative':
+        # the same directory spelled with a trailing separator
+        rel = w.dir + '/'
+    elif w.is_real:
         old_cwd = os.getcwd()
         os.chdir(w.root)
         rel = 'relcache'
@@ -187,6 +191,8 @@ def jobs(tier):
                             must_reach=['fixed' if fix else 'report_only']))
     for kind in ('cache', 'fanout'):
         out.append(dict(id='check.reldir.%s' % kind, func='ob_check_reldir', params=dict(kind=kind), tags=['C17'], functions=F + ['core.Disk.remove'], weight=5, twin=False))
+        for sp in ('trailing',):
+            out.append(dict(id='check.spelling.%s.%s' % (sp, kind), func='ob_check_reldir', params=dict(kind=kind, spelling=sp), tags=['C17'], functions=F + ['core.Disk.remove'], weight=5, twin=False))
     for fix in (False, True):
         out.append(dict(id='check.busy.noretry.fix=%s' % fix, func='ob_check', params=dict(N=1, fix=fix, busy=1), tags=['C17', 'C14'], functions=F, weight=10, must_reach=['timeout_raised']))
         out.append(dict(id='check.busy.retry.fix=%s' % fix, func='ob_check', params=dict(N=1, fix=fix, busy=1, retry=True), tags=['C17', 'C14'], functions=F, weight=20,
